@@ -287,10 +287,42 @@ def run(ctx):
                     ctx.sample({'rule': rule, 'function': q, 'outcomes': sorted(summ)})
             ctx.floor('%s: operations that can %s' % (rule, 'add a vertex' if mode == 'insert' else 're-key the Tds'),
                       2, nm, cfg)
+        _coordsrc(ctx, cfg, prog, mod)
         _uuid(ctx, cfg, prog, mod)
         _dupgate(ctx, cfg, prog, mod)
         _resolve(ctx, cfg, prog, mod)
     return ctx.finish(EXPLANATION)
+
+
+STORAGE_READS = {'core::triangulation_data_structure::Tds::get_vertex_by_key',
+                 'core::triangulation_data_structure::Tds::vertices',
+                 'core::triangulation::Triangulation::vertices',
+                 'core::delaunay_triangulation::DelaunayTriangulation::vertices'}
+
+
+def _coordsrc(ctx, cfg, prog, mod):
+    """COORDSRC: the coordinates filed in the index for a VertexKey come from the vertex *stored*
+    under that key (after perturbation retries the stored point differs from the requested one)."""
+    import valueflow
+    ctx.rule('COORDSRC', 'index.insert_vertex(key, coords): coords are read back from storage, not taken from the request')
+    n = 0
+    for q, b in sorted(prog.bodies.items()):
+        for bb, t in b.calls():
+            if (t.resolved or t.callee) != IDX_INSERT or len(t.args) < 3:
+                continue
+            kty = b.locals[t.args[1].place.local] if t.args[1].place is not None else ''
+            if 'VertexKey' not in kty:
+                continue      # other index instantiations (batch dedup keys positions)
+            n += 1
+            o = t.args[2]
+            leaves = valueflow.deep_sources(prog, mod, b, o.place.local) if o.place is not None else []
+            ok = any(l[0] == 'call' and (l[1].resolved or l[1].callee) in STORAGE_READS for l in leaves)
+            ctx.ob('COORDSRC', b.root or q, cfg, ok,
+                   'coordinates filed for the key %s' % ('are read from the stored vertex' if ok else
+                   'do NOT come from the stored vertex: after a perturbation retry the entry is filed under the requested '
+                   'position and the duplicate query at the real position finds no candidate'),
+                   site='%s:%d' % (b.file, t.line))
+    ctx.floor('index.insert_vertex(VertexKey, ..) sites', 3, n, cfg)
 
 
 def _uuid(ctx, cfg, prog, mod):
